@@ -12,7 +12,7 @@ from . import common
 META = {'assumptions': ['transport, TLS and the JSON/form encoders are requests / oslo.serialization: requests.post is replaced '
                         'by a recording stub; the model takes its result as a value']}
 
-BODIES = ['True', 'true', 'TRUE', 'False', '"True"', '""True""', '"True', 'True"', "'True'", ' True', 'True ', 'True\n',
+BODIES = ['"\\u0054rue"', ' "True"', '"True"\n', '\t"True" ', 'true\n', ' true', 'True', 'true', 'TRUE', 'False', '"True"', '""True""', '"True', 'True"', "'True'", ' True', 'True ', 'True\n',
           '\tTrue', '"True"\n', '', '"', '""', 'Truee', 'TTrue', 'Tru', 'true"', '"true"', '1', 'yes', 'null', '{"result": true}',
           '[true]', 'True True', '"Tr"ue"', 'T' * 5000, '\x00True', 'Trué', '"""True"""', '"True""""']
 
@@ -73,9 +73,10 @@ def _replies(ctx, rep, stub):
             # the check at some depth of an expression, under some policy name
             wrap = ctx.rng.choice(['%s', 'role:nobody or %s', 'not not %s', '(role:r0 and %s)', 'rule:inner'])
             rules = {'outer': wrap % url_rule if wrap != 'rule:inner' else 'rule:inner', 'inner': url_rule}
-            scs.append({'rules': rules, 'queries': [{'rule': 'outer', 'target': {'tk': 'tv'}, 'creds': {'roles': ['r0']}}],
-                        'remote': {url: {'body': body, 'status': status}}})
-            metas.append((body, status, url, 'body'))
+            for ctype in ('application/x-www-form-urlencoded', 'application/json'):
+                scs.append({'rules': rules, 'queries': [{'rule': 'outer', 'target': {'tk': 'tv'}, 'creds': {'roles': ['r0']}}],
+                            'remote': {url: {'body': body, 'status': status}}, 'content_type': ctype})
+                metas.append((body, status, url, 'body'))
     for fault in ('timeout', 'transport'):
         for kind in ('http', 'https'):
             url = '%s://h.example/tv/check' % kind
@@ -120,7 +121,7 @@ def _replies(ctx, rep, stub):
     finally:
         scenario.impl_run = real_impl_run
     rep.rules.append('%d reply bodies around the accepted form (True/true/TRUE, quotes on either side, whitespace, JSON true, '
-                     'empty, long, binary-ish, random strings over that alphabet) x http/https x random status codes, the '
+                     'empty, long, binary-ish, JSON spellings, random strings over that alphabet) x http/https x both content types x random status codes, the '
                      'check placed plain, under or/not/and and behind an alias; injected Timeout and ConnectionError' % len(bodies))
 
 
